@@ -63,6 +63,26 @@ let parse_op () =
   | "FAILT" -> ignore (next ()); ignore (next ()); OFail
   | t -> failwith ("bad op " ^ t)
 
+(* derived operations (Store/XOps.v): DW <store> T | DW <store> EQ <field> <hexvalue> ;
+   G <badtags> <k> (<store> <field>)*k <C .. | UP ..>  = the create / update is subject to the rejections of PersistEntity *)
+let parse_xop () =
+  match peek () with
+  | Some "DW" ->
+      ignore (next ());
+      let s = next_name () in
+      (match next () with
+       | "T" -> XDeleteWhere (s, DwTrue)
+       | "EQ" -> let f = next_name () in let v = next_hex () in XDeleteWhere (s, DwFieldEq (f, v))
+       | t -> failwith ("bad DW filter " ^ t))
+  | Some "G" ->
+      ignore (next ());
+      let bt = next_bool () in
+      let k = next_int () in
+      let req = repeat k (fun () -> let s = next_name () in let f = next_name () in (s, f)) in
+      XPersist (bt, req, parse_op ())
+  | _ -> XBase (parse_op ())
+
+(* a transaction whose body contains only plain operations runs through run_tx exactly as before *)
 let parse_tx () =
   (match next () with "TX" -> () | t -> failwith ("expected TX got " ^ t));
   let sys = next_bool () in
@@ -70,8 +90,11 @@ let parse_tx () =
   let nv = next_int () in
   let vetoes = repeat nv (fun () -> let s = next_name () in let c = parse_change () in let i = next_hex () in ((s, c), i)) in
   let no = next_int () in
-  let ops = repeat no parse_op in
-  { tx_sys = sys; tx_vetoes = vetoes; tx_ops = ops; tx_precommit_fails = pcf }
+  let xops = repeat no parse_xop in
+  if List.for_all (function XBase _ -> true | _ -> false) xops then
+    `Plain { tx_sys = sys; tx_vetoes = vetoes; tx_ops = List.map (function XBase o -> o | _ -> OFail) xops; tx_precommit_fails = pcf }
+  else
+    `Derived { xtx_sys = sys; xtx_vetoes = vetoes; xtx_ops = xops; xtx_precommit_fails = pcf }
 
 let fval_str = function
   | FAbsent -> "absent" | FNil -> "nil" | FStr s -> "s" ^ hex_of_bytes s | FBool b -> if b then "b1" else "b0"
@@ -129,7 +152,9 @@ let () =
       let buf = Buffer.create 4096 in
       while peek () <> None do
         let t = parse_tx () in
-        let (((rs, committed), st'), evs) = run_tx sch fuel !st t in
+        let (((rs, committed), st'), evs) = (match t with
+          | `Plain t -> run_tx sch fuel !st t
+          | `Derived t -> run_xtx sch fuel !st t) in
         st := st';
         Buffer.add_string buf "TX R";
         List.iter (fun r -> Buffer.add_char buf ' '; Buffer.add_string buf (kind_str r)) rs;
